@@ -425,10 +425,18 @@ def _crash_part(ctx, env, case, pristine, mem, op, _unused):
 
 # ---------------------------------------------------------------- runner glue
 
+def _interleave(a, b):
+    """alternate the two task kinds so that both make progress whatever the job count / budget"""
+    out = []
+    for i in range(max(len(a), len(b))):
+        out += a[i:i + 1] + b[i:i + 1]
+    return out
+
+
 def plan(tier, seed):
     if tier == "quick":
-        return [{"task": "crash", "examples": 30} for _ in range(8)] + [{"task": "hist", "examples": 500} for _ in range(8)]
-    return [{"task": "crash", "examples": 1200} for _ in range(16)] + [{"task": "hist", "examples": 15000} for _ in range(16)]
+        return _interleave([{"task": "crash", "examples": 30} for _ in range(8)], [{"task": "hist", "examples": 500} for _ in range(8)])
+    return _interleave([{"task": "crash", "examples": 1200} for _ in range(16)], [{"task": "hist", "examples": 15000} for _ in range(16)])
 
 
 def run_task(ctx, task, **kw):
